@@ -6,3 +6,6 @@ mod test;
 
 pub use lua_diagnostic::LuaDiagnostic;
 pub use lua_diagnostic_code::DiagnosticCode;
+
+#[cfg(feature = "verif")]
+pub use checker::verif as diagnostic_verif;
